@@ -243,8 +243,8 @@ def gen(
         )
     )
 
-    with open(output_filename, "a") as f:
-        f.write(to_code(parsed_ast))
+    # through emit.file: complete contents first, then an atomic move (never a half-written module)
+    emit.file(parsed_ast, output_filename, mode="a", skip_black=True)
 
 
 __all__ = ["gen"]
